@@ -14,7 +14,11 @@ use crate::token::ui_token::{UiTokenType};
 
 /* Reads the digits of a based literal; accumulates in f64 so that literals of any length are accepted */
 fn parse_radix(text: &str, radix: u32) -> f64 {
-    text.chars().fold(0.0, |number, ch| number * radix as f64 + ch.to_digit(radix).unwrap_or(0) as f64)
+    match u128::from_str_radix(text, radix) {
+        /* Exact integer, converted to the nearest double */
+        Ok(number) => number as f64,
+        Err(_) => text.chars().fold(0.0, |number, ch| number * radix as f64 + ch.to_digit(radix).unwrap_or(0) as f64)
+    }
 }
 
 pub fn number_regex_parser(config: &SmartCalcConfig, tokinizer: &mut Tokinizer, group_item: &[Regex]) {
